@@ -4,7 +4,7 @@ import Pko.Model.ObjectSet
 ObjectSet controller model over a schedule, canonical printing — the format of
 `harness/verifsys/sys.go`. -/
 namespace Pko.Drv.SysCommon
-open Lean Pko.Kube Pko.Model.Phase Pko.Model.ObjectSet Pko.Drv.PhaseCommon
+open Lean Pko.Kube Pko.Model.Phase Pko.Model.ObjectSet Pko.Model.Status Pko.Drv.PhaseCommon
 
 structure JPhase where
   name : String
